@@ -135,6 +135,8 @@ impl<R: Round> Context<R> {
         let mut p = exp.bit_len() - 2;
         let mut res = work_context.sqr(base);
         loop {
+            #[cfg(dashu_verif)]
+            dashu_base::verif::tick(dashu_base::verif::LOOP_POWI);
             if exp.bit(p) {
                 res = res.and_then(|v| work_context.mul(v.repr(), base));
             }
@@ -304,6 +306,8 @@ impl<R: Round> Context<R> {
 
         let mut k = 2;
         loop {
+            #[cfg(dashu_verif)]
+            dashu_base::verif::tick(dashu_base::verif::LOOP_EXP);
             factorial *= k;
             pow *= &r;
 
